@@ -309,8 +309,9 @@ def run_job(job, packages, known, replay_dir):
     max_paths = job.get('max_paths', 20000)
     stack = [[]]
     goal_names = {}
+    stop = False            # one reproduced violation per harness instance is enough: stop exploring it
     try:
-        while stack:
+        while stack and not stop:
             prefix = stack.pop()
             STORE.reset()
             for p in packages.values():
@@ -382,6 +383,7 @@ def run_job(job, packages, known, replay_dir):
                         ob['verdict'] = 'unreproduced'
                         rec['errors'].append('counterexample for %s/%s did not reproduce on the real build (%s): %s'
                                              % (job['label'], gname, rp.get('status'), path))
+                        stop = True
                         break
                     if kf is not None:
                         rec['known'].append(dict(goal=gname, finding=kf['id'], what=kf['what'], replay=path))
@@ -390,6 +392,9 @@ def run_job(job, packages, known, replay_dir):
                         continue
                     ob['verdict'] = 'sat'
                     rec['violations'].append(dict(goal=gname, replay=path, inputs=cex['inputs']))
+                    stop = True
+                    break
+                if stop:
                     break
                 if len(rec['samples']) < 2:
                     rec['samples'].append(dict(harness=job['label'], goal=gname, path_decisions=len(ctx.prefix),
